@@ -199,12 +199,20 @@ func (p *Prog) resolveRenames() {
 			isNew[f] = true
 		}
 	}
-	marksOf := func(f *ssa.Function) []string {
-		if m, ok := marks[f]; ok {
-			return m
+	deep := map[*ssa.Function][]string{}
+	/* How well f's body matches a reference function's: as written, or
+	with the pieces of it which were given names of their own counted in,
+	whichever fits better. */
+	score := func(ref []string, f *ssa.Function) float64 {
+		if _, ok := marks[f]; !ok {
+			marks[f] = funcMarks(f)
+			deep[f], foldedIn[f] = funcMarksDeep(f, func(g *ssa.Function) bool { return isNew[g] })
 		}
-		marks[f], foldedIn[f] = funcMarksDeep(f, func(g *ssa.Function) bool { return isNew[g] })
-		return marks[f]
+		a, b := jaccard(ref, marks[f]), jaccard(ref, deep[f])
+		if b > a {
+			return b
+		}
+		return a
 	}
 	var missing []string
 	for name := range refInfo {
@@ -219,7 +227,7 @@ func (p *Prog) resolveRenames() {
 			if f.Pkg.Pkg.Path() != ri.Pkg || recvTypeName(f) != ri.Recv || sigString(f) != ri.Sig {
 				continue
 			}
-			pairs = append(pairs, pair{name, f, jaccard(ri.Marks, marksOf(f))})
+			pairs = append(pairs, pair{name, f, score(ri.Marks, f)})
 			candsOf[name]++
 			refsOf[f]++
 		}
@@ -264,7 +272,7 @@ func (p *Prog) resolveRenames() {
 			if taken[f] || f.Pkg.Pkg.Path() != ri.Pkg {
 				continue
 			}
-			if sc := jaccard(ri.Marks, marksOf(f)); sc > best {
+			if sc := score(ri.Marks, f); sc > best {
 				best, bestF = sc, f
 			}
 		}
@@ -273,7 +281,7 @@ func (p *Prog) resolveRenames() {
 			if taken[f] || f.Pkg.Pkg.Path() != ri.Pkg || f == bestF || (nil != bestF && foldedIn[bestF][f]) {
 				continue
 			}
-			if sc := jaccard(ri.Marks, marksOf(f)); sc > second {
+			if sc := score(ri.Marks, f); sc > second {
 				second = sc
 			}
 		}
